@@ -271,7 +271,7 @@ func checkBudget(r *Run, prog *Program, a *Anchors, pfx string) {
 				if isSynthetic(c) {
 					continue
 				}
-				if !allowed[c.Name()] {
+				if !allowed[c.Name()] && !onlyEnteredFrom(prog, c, allowed, 2) {
 					bad = append(bad, c.Name())
 				}
 			}
@@ -539,4 +539,36 @@ func budgetFieldOf(maxExprOpt *ssa.Function) string {
 		}
 	}
 	return budgetField
+}
+
+// onlyEnteredFrom: fn is an unexported function of the module that is itself only entered (statically or through an
+// interface) from the allowed functions, or from functions of which the same holds (bounded).
+func onlyEnteredFrom(prog *Program, fn *ssa.Function, allowed map[string]bool, depth int) bool {
+	if depth == 0 || !prog.InModule(fn) || (fn.Object() != nil && fn.Object().Exported()) {
+		return false
+	}
+	n := prog.CG.Nodes[fn]
+	if n == nil || len(n.In) == 0 {
+		return true // never entered at all (a method of a node type the grammar does not use)
+	}
+	for _, e := range n.In {
+		c := e.Caller.Func
+		for c.Parent() != nil {
+			c = c.Parent()
+		}
+		if isSynthetic(c) {
+			cn := prog.CG.Nodes[c]
+			if cn == nil || len(cn.In) == 0 {
+				continue
+			}
+			return false
+		}
+		if c == fn {
+			return false
+		}
+		if !allowed[c.Name()] && !onlyEnteredFrom(prog, c, allowed, depth-1) {
+			return false
+		}
+	}
+	return true
 }
